@@ -4,6 +4,7 @@ set -eu
 cd "$(dirname "$0")"
 . ./env.sh
 mkdir -p .build
+OUT="$PWD/.build"
 PROP="${1:-all}"
 cp /repo/hermes/go.sum harness/go.sum.repo 2>/dev/null || true
 ( cd harness && go build -tags verif -o ../.build/vmon . )
@@ -11,8 +12,8 @@ need_bins=0
 case "$PROP" in C03|C11|C13|C17|all) need_bins=1;; esac
 if [ $need_bins = 1 ]; then
   # repository binaries: workspace mode (go.work), no -mod flag
-  ( cd /repo/src/hermes2go && env -u GOFLAGS GOWORK= go build -tags verif -race -o /verif/.build/hermes2go_race . )
-  ( cd /repo/src/hermes2go && env -u GOFLAGS GOWORK= go build -tags verif -o /verif/.build/hermes2go . )
-  ( cd /repo/src/calcHermesBatch && env -u GOFLAGS GOWORK= go build -o /verif/.build/calcHermesBatch . )
-  ( cd /repo/src/cropfileconverter && env -u GOFLAGS GOWORK= go build -o /verif/.build/cropfileconverter . )
+  ( cd /repo/src/hermes2go && env -u GOFLAGS GOWORK= go build -tags verif -race -o $OUT/hermes2go_race . )
+  ( cd /repo/src/hermes2go && env -u GOFLAGS GOWORK= go build -tags verif -o $OUT/hermes2go . )
+  ( cd /repo/src/calcHermesBatch && env -u GOFLAGS GOWORK= go build -o $OUT/calcHermesBatch . )
+  ( cd /repo/src/cropfileconverter && env -u GOFLAGS GOWORK= go build -o $OUT/cropfileconverter . )
 fi
